@@ -43,7 +43,14 @@ def no_arg(fun):
     return wrap
 
 
+# what PHP's is_numeric() accepts (MediaWiki compares such strings by value): Python's int()/float()
+# would also take "1_0", "inf", "nan" and non-ASCII digits
+_numeric_rx = re.compile(r"[+-]?(?:[0-9]+\.?[0-9]*|\.[0-9]+)(?:[eE][+-]?[0-9]+)?\Z")
+
+
 def as_numeric(str_number: str) -> int | float:
+    if not _numeric_rx.match(str_number):
+        raise ValueError(f"not numeric: {str_number!r}")
     try:
         return int(str_number)
     except ValueError:
